@@ -392,6 +392,15 @@ func isMap(info *types.Info, e ast.Expr) bool {
 	return ok
 }
 
+// R9: slow crypto calls get a scheduling point in front (see shim/vcrypto).
+var cryptoSel = map[string]string{
+	"crypto/rand.Int":               "RandInt",
+	"crypto/rand.Read":              "RandRead",
+	"crypto/x509.CreateCertificate": "X509CreateCertificate",
+	"crypto/ecdsa.GenerateKey":      "EcdsaGenerateKey",
+}
+var cryptoPaths = map[string]bool{"crypto/rand": true, "crypto/x509": true, "crypto/ecdsa": true}
+
 func rewriteFile(res *Result, rw *fileRW, f *ast.File, info *types.Info, p *listPkg) int {
 	count := 0
 	need := map[string]bool{}
@@ -429,6 +438,12 @@ func rewriteFile(res *Result, rw *fileRW, f *ast.File, info *types.Info, p *list
 				rw.replace(x.X.Pos(), x.X.End(), "vos")
 				need["vos"] = true
 				hit("R6 os->vos")
+			case cryptoSel[path+"."+name] != "":
+				rw.replace(x.Pos(), x.End(), "vcrypto."+cryptoSel[path+"."+name])
+				need["vcrypto"] = true
+				hit("R9 slow crypto call -> vcrypto (yield)")
+			case cryptoPaths[path]:
+				remaining[path]++
 			case path == "sync" || path == "time" || path == "os":
 				remaining[path]++
 				if path == "sync" && (name == "Cond" || name == "Map" || name == "NewCond") {
@@ -638,7 +653,7 @@ func rewriteFile(res *Result, rw *fileRW, f *ast.File, info *types.Info, p *list
 	}
 	// imports: add the shim imports on the package-clause line; blank the originals that lost all uses.
 	var add []string
-	for _, name := range []string{"vsched", "vsync", "vtime", "vos"} {
+	for _, name := range []string{"vsched", "vsync", "vtime", "vos", "vcrypto"} {
 		if need[name] {
 			add = append(add, fmt.Sprintf("import %s \"%s%s\"", name, shimRoot, name))
 		}
@@ -659,7 +674,10 @@ func rewriteFile(res *Result, rw *fileRW, f *ast.File, info *types.Info, p *list
 	}
 	for _, im := range f.Imports {
 		path := strings.Trim(im.Path.Value, `"`)
-		if path != "sync" && path != "time" && path != "os" {
+		if path != "sync" && path != "time" && path != "os" && !cryptoPaths[path] {
+			continue
+		}
+		if cryptoPaths[path] && !need["vcrypto"] {
 			continue
 		}
 		if im.Name != nil {
